@@ -588,19 +588,21 @@ fn resize_stream<F: Read + Write + Seek>(
             // Case 3c: The new length is still too large to fit in a mini
             // chain.  Therefore, we just need to adjust the length of the
             // existing chain.
-            let sector_len = minialloc.version().sector_len() as u64;
             let mut chain =
                 minialloc.open_chain(old_start_sector, SectorInit::Zero)?;
+            // The chain can be longer than the stream needs (after a write
+            // that extended it but failed before the directory entry was
+            // updated, or in a file written elsewhere).
+            let old_capacity = chain.len();
             chain.set_len(new_stream_len)?;
             if new_stream_len > old_stream_len {
-                // New sectors are zero-initialized, but the tail of the old
-                // last sector may hold data from before an earlier shrink.
-                let old_sector_end =
-                    old_stream_len.div_ceil(sector_len) * sector_len;
+                // New sectors are zero-initialized, but the sectors that the
+                // chain already had - the tail of the old last sector, and
+                // any surplus sectors - may hold old data.
                 zero_fill(
                     &mut chain,
                     old_stream_len,
-                    new_stream_len.min(old_sector_end),
+                    new_stream_len.min(old_capacity),
                 )?;
             }
             debug_assert_eq!(chain.start_sector_id(), old_start_sector);
